@@ -688,5 +688,10 @@ pub fn gen_liq_plan(wd: &World, rng: &mut Rng) -> Action {
 			fees.push((from + 1 + rng.below(2) as u32, node, rate));
 		}
 	}
-	Action::LiqPlan { holds, restarts, fees }
+	// shallow reorganisations while claims are in flight
+	let mut reorgs = Vec::new();
+	for _ in 0..rng.below(3) {
+		reorgs.push((rng.below(30) as u32, *rng.pick(&[1u32, 1, 1, 2, 3, 5])));
+	}
+	Action::LiqPlan { holds, restarts, fees, reorgs }
 }
